@@ -11,7 +11,7 @@ import bluesky.plans as bp
 import bluesky.preprocessors as bpp
 from bluesky.utils import Msg
 
-from vf.devices import AsyncLocMotor, Det, Flyer, LocMotor, Motor, Sig
+from vf.devices import AsyncLocMotor, Det, Flyer, LocMotor, Motor, Sig, StreamDet
 
 
 def devices(h, faults=None, motor_delay=0.1, det_delay=0.05):
@@ -361,6 +361,27 @@ def p_locate2(h, d):
         yield Msg("locate", a0, a1)
         yield Msg("locate", lm, a1, a0)
         yield Msg("null")
+        yield Msg("close_run")
+
+    return body()
+
+
+def p_collect_sd(h, d):
+    """two stream-asset detectors collected together several times, checkpoints only every other collect."""
+    dets = [StreamDet("sd0", h.log), StreamDet("sd1", h.log)]
+    prog = [(2, 3), (1, 1), (3, 2), (0, 2), (2, 2)]
+
+    def body():
+        yield Msg("open_run")
+        yield Msg("declare_stream", None, *dets, name="main", collect=True)
+        yield Msg("checkpoint")
+        for k, step in enumerate(prog):
+            for dd, inc in zip(dets, step):
+                dd.written += inc
+            yield Msg("collect", *dets, name="main")
+            yield Msg("sleep", None, 0.02)
+            if k % 2:
+                yield Msg("checkpoint")
         yield Msg("close_run")
 
     return body()
@@ -732,6 +753,7 @@ CORPUS = {
     "nested": p_nested,
     "fly": p_fly,
     "clearcp": p_clearcp,
+    "collect_sd": p_collect_sd,
     "locate2": p_locate2,
     "late_wait": p_late_wait,
     "two_runs": p_two_runs,
